@@ -14,9 +14,16 @@ use uint::construct_uint;
 // ---------------- extracted verbatim from sway-core/src/ir_generation/storage.rs ----------------
 @add_to_b256@
 
+pub struct StorageSlot;
+// serialize_to_storage_slots, arm `ConstantValue::Array(_a) if ty.is_array(context)` -- verbatim body
+pub fn storage_slots_of_array() -> Vec<StorageSlot> { @ARRAY_ARM@ }
+
 #[cfg(kani)]
 mod h {
     use super::*;
+    /// a storage field of array type must be serialised (or rejected with a diagnostic), not abort the compiler
+    #[kani::proof]
+    fn array_field_total() { let v = storage_slots_of_array(); std::mem::forget(v); }
     /// reference: big-endian 256-bit + 64-bit addition, limb by limb with explicit carries; None on overflow of 2^256
     fn spec_add(x: &[u8; 32], y: u64) -> Option<[u8; 32]> {
         let mut out = [0u8; 32];
@@ -52,12 +59,18 @@ mod h {
 
 
 def build(tier):
-    fr = vf.extract([{"id": "add_to_b256", "file": SF, "locator": {"kind": "fn", "name": "add_to_b256", "attrs": "strip"}}])
-    src = ENV.replace("@add_to_b256@", fr["add_to_b256"]["text"].replace("pub(super) fn", "pub fn"))
+    fr = vf.extract([{"id": "add_to_b256", "file": SF, "locator": {"kind": "fn", "name": "add_to_b256", "attrs": "strip"}},
+                     {"id": "slots", "file": SF, "locator": {"kind": "in_fn", "fn": {"kind": "fn", "name": "serialize_to_storage_slots"}, "what": "match",
+                                                             "scrutinee": "&constant.get_content(context).value", "nth": 0}}])
+    arm = [a for a in fr["slots"]["arms"] if a["pat"].replace(" ", "").startswith("ConstantValue::Array(")]
+    if len(arm) != 1:
+        raise vf.Undecided("serialize_to_storage_slots: Array arm not found")
+    src = ENV.replace("@add_to_b256@", fr["add_to_b256"]["text"].replace("pub(super) fn", "pub fn")).replace("@ARRAY_ARM@", arm[0]["body"])
     obs = [vf.Ob("add_to_b256_value", "C12", panic_prop="C17", what="add_to_b256(x, y) == x + y as 256-bit big-endian whenever the sum fits: consecutive slots of one field are base, base+1, ..."),
            vf.Ob("add_to_b256_total", "C12", panic_prop="C17", known="D9", what="add_to_b256 never panics (the `uint` crate's + panics on overflow of 2^256)")]
+    obs.append(vf.Ob("array_field_total", "C12", panic_prop="C17", known="D18", what="serialize_to_storage_slots, Array arm: a storage field of array type does not abort the compiler"))
     u = vf.KaniUnit("c12_keys", {"src/lib.rs": src}, obs, deps={"uint": "0.9"}, timeout_s=900, jobs=2, auto_files=[SF])
-    u.fragments = [vf.frag_record(fr["add_to_b256"])]
+    u.fragments = [vf.frag_record(fr["add_to_b256"]), dict(vf.frag_record(fr["slots"]), note="arm ConstantValue::Array at line %d" % arm[0]["line"])]
     u.rewrites = [{"rule": "R1", "before": "pub(super) fn / #[allow(..)] attribute", "after": "pub fn", "times": 1}]
     u.assumptions = ["fuel_types::Bytes32 shimmed as a 32-byte newtype; the real `uint` crate is used",
                      "unverified (C12 is claimed for the slot-key arithmetic only): get_storage_key_string / hash_storage_key_string (format!/join string building), serialize_to_words layout, "
